@@ -3,6 +3,7 @@ package gen
 import (
 	"fmt"
 	"sort"
+	"strings"
 
 	"grits/zverif/ref"
 )
@@ -251,6 +252,37 @@ func renameFunc(p *ref.Program, old, nw string) {
 }
 
 // Renamings enumerates admissible renamings and declaration permutations of p.
+// RenamingsOf restricts the channel-name renamings to the function named onlyFunc and skips the
+// type/function/label renamings (used for generated programs, whose harness declarations are shared).
+func RenamingsOf(p *ref.Program, maxPerms int, onlyFunc string) []Renaming {
+	all := Renamings(p, maxPerms)
+	if onlyFunc == "" {
+		return all
+	}
+	idx := -1
+	for i, f := range p.Funcs {
+		if f.Name == onlyFunc {
+			idx = i
+		}
+	}
+	var out []Renaming
+	for _, r := range all {
+		switch {
+		case strings.HasPrefix(r.Desc, "binder "):
+			if strings.HasSuffix(r.Desc, fmt.Sprintf("in declaration %d", idx)) {
+				out = append(out, r)
+			}
+		case strings.HasPrefix(r.Desc, "parameter "):
+			if strings.HasSuffix(r.Desc, " of "+onlyFunc) {
+				out = append(out, r)
+			}
+		case strings.HasPrefix(r.Desc, "declaration order"):
+			out = append(out, r)
+		}
+	}
+	return out
+}
+
 func Renamings(p *ref.Program, maxPerms int) []Renaming {
 	var out []Renaming
 	// identifier pool: every channel identifier of the program (collision seeking) plus a fresh one
